@@ -411,6 +411,33 @@ def rule_flag_truthiness(ctx, rule='R03.t'):
     ctx.floor(rule, n, 4, 'closures with a hard-core flag')
 
 
+def rule_cancellation(ctx, rule='R09.n'):
+    """floating-point conditioning of the one pattern that silently destroys a closure for strongly repulsive pairs: a
+    constant added back onto `exp(..) - constant` (the Mayer function f = exp(-u) - 1 followed by 1 + f).  The normal form
+    cannot see it (the constants cancel algebraically); the interpreter notes it where it happens (Interp.note_cancellation).
+    For u > 37 (any hard or strongly repulsive core) 1 + f is exactly 0 and exp(gamma - u) is lost however large gamma is."""
+    n = 0
+    for dcls, f, users in defining_classes(ctx.prog):
+        cname = dcls.qualname
+        hits = []
+        try:
+            for flag in (False, True):
+                w = run_closure(ctx.prog, dcls, flag)
+                hits += [x for k_, x in w['ip'].notes if k_ == 'cancellation']
+        except (Unsupported, Raised) as e:
+            ctx.undecided(rule, cname, str(e), f.loc())
+            continue
+        n += 1
+        if hits:
+            h = hits[0]
+            ctx.violation(rule, cname, 'cancellation', 'at %s the constant %s is added back onto %s: in floating point the exponential '
+                          'is lost once it is below %s*1e-16 (u > 37 for exp(-u)), so the closure returns -1-gamma-like values for '
+                          'strongly repulsive pairs whatever gamma is' % (h['loc'], h['const'], h['term'], h['const']), f.loc())
+        else:
+            ctx.holds(rule, cname, 'no constant is added back onto an exp(..) - constant intermediate', f.loc(), nontrivial=False)
+    ctx.floor(rule, n, 4, 'closures checked for the 1 + (exp - 1) pattern')
+
+
 def rule_core_only(ctx, rule='R03.a'):
     """C03's clause: inside the core of a flagged closure c + gamma == -1 exactly (what the closure does outside the core
     is C09's business)"""
@@ -614,6 +641,28 @@ def run_copy(prog, cls, flag, preset=()):
     return ip, {'res': res, 'obj': o, 'res1': None, 't1': None, 'garr': garr, 'feedback': False}
 
 
+def run_other_grid(prog, cls, flag, preset=()):
+    """another closure object of the same class was evaluated before, with the same contact distance, on another grid with the
+    same number of points (a second system with another spacing solved in the same process); then this one is evaluated.
+    Catches masks / tables kept at class or module level under a key that omits the grid itself."""
+    ip = Interp(prog)
+    ip.preset = list(preset)
+    for s_, k in (('u', 'curve'), ('g', 'curve'), ('r', 'curve'), ('sigma', 'scalar'), ('u1', 'curve'), ('g1', 'curve'), ('r1', 'curve')):
+        ip.declare(s_, k)
+    ip.len_alias = {'g': 'r', 'u': 'r', 'g1': 'r', 'u1': 'r', 'r1': 'r'}
+    first = ip.construct(cls, [], {'apply_hard_core': Const(flag)})
+    first.attrs['sigma'] = Num(S)
+    first.attrs['potential'] = Arr(N.sym('u1'), 'other.potential', ip)
+    ip.call(ip.find_method(first, 'calculate'), [Arr(N.sym('r1'), 'r_other', ip), Arr(N.sym('g1'), 'gamma_other', ip)], {})
+    o = ip.construct(cls, [], {'apply_hard_core': Const(flag)})
+    o.origin = 'self'
+    o.attrs['sigma'] = Num(S)
+    o.attrs['potential'] = Arr(U, 'self.potential', ip)
+    garr = Arr(G, 'gamma', ip)
+    res = ip.call(ip.find_method(o, 'calculate'), [Arr(R, 'r', ip), garr], {})
+    return ip, {'res': res, 'obj': o, 'res1': None, 't1': None, 'garr': garr, 'feedback': False}
+
+
 def rule_history(ctx, rule='R09.h', aliasing=True):
     """The value returned by calculate depends only on the arguments and the *current* potential/sigma, never on an
     earlier evaluation (a cached exponential, a remembered mask ...).  Two-step induction: evaluate the object on
@@ -629,6 +678,7 @@ def rule_history(ctx, rule='R09.h', aliasing=True):
                 fresh = run_closure(ctx.prog, dcls, flag)
                 worlds = explore(lambda preset: run_twice(ctx.prog, dcls, flag, preset))
                 worlds += explore(lambda preset: run_copy(ctx.prog, dcls, flag, preset))
+                worlds += explore(lambda preset: run_other_grid(ctx.prog, dcls, flag, preset))
                 if aliasing:
                     worlds += explore(lambda preset: run_twice(ctx.prog, dcls, flag, preset, feedback=True))
             except (Unsupported, Raised) as e:
@@ -759,6 +809,9 @@ def rule_purity(ctx, rule='R09.p'):
                     bad.append('in-place write to %s at %s (%s)' % (e['target'], e['loc'], e.get('via')))
                 elif e['kind'] == 'bind' and e['target'] in INPUT_ATTRS:
                     bad.append('input attribute %s rebound at %s' % (e['target'], e['loc']))
+                elif e['kind'] == 'dtype-cast' and e['target'] == 'r':
+                    bad.append('the result buffer is allocated with the dtype of r (np.*_like(r) without dtype) and filled by a store at %s: '
+                               'on an integer grid (Domain(dr=1)) the closure output is truncated to integers' % e['loc'])
                 elif e['kind'] == 'unknown-call':
                     bad.append('unknown call %s' % e['target'])
             res = w['res']
